@@ -319,6 +319,110 @@ impl Oracle for C09Oracle {
 }
 
 // ---------------------------------------------------------------------------------------------
+// C09, refusal clause on pools of every size: all addresses but one are held, the newcomer must
+// get that one
+
+#[derive(Clone, Debug, Serialize, Deserialize)]
+pub struct ExhaustCase {
+    /// pool size
+    pub n: u8,
+    /// index of the one address nobody holds
+    pub free: u8,
+    pub newcomer: u8,
+}
+
+pub struct C09Exhaust;
+
+impl Prop for C09Exhaust {
+    type Case = ExhaustCase;
+    fn sub(&self) -> &'static str {
+        "one-address-left"
+    }
+    fn check(&self, c: &ExhaustCase) -> Outcome {
+        use erbium::dhcp::{self, dhcppkt};
+        let mut out = Outcome::default();
+        let n = c.n.max(1) as usize;
+        let free = c.free as usize % n;
+        let addrs: Vec<Ipv4Addr> = (0..n).map(|i| Ipv4Addr::new(10, 9, 1, 1 + i as u8)).collect();
+        let conf = make_config(Ipv4Addr::new(10, 9, 1, 0), &addrs);
+        let mut pool = dhcp::pool::Pool::new_in_memory().expect("pool");
+        let serverip = Ipv4Addr::new(10, 9, 1, 254);
+        let ask = |pool: &mut dhcp::pool::Pool, mac: [u8; 6], want: Option<Ipv4Addr>| {
+            let mut m = wire::Msg { xid: 0x0909, ..Default::default() };
+            m.set_hw(&mac);
+            m.options.push((wire::OPT_MSG_TYPE, vec![wire::DISCOVER]));
+            if let Some(w) = want {
+                m.options.push((wire::OPT_REQUESTED_IP, w.octets().to_vec()));
+            }
+            let req = dhcp::DHCPRequest {
+                pkt: dhcppkt::parse(&m.encode()).expect("harness request parses"),
+                serverip,
+                ifindex: 1,
+                if_mtu: None,
+                if_router: None,
+            };
+            dhcp::handle_pkt(pool, &req, Default::default(), &conf)
+        };
+        for (i, a) in addrs.iter().enumerate() {
+            if i == free {
+                continue;
+            }
+            match ask(&mut pool, [2, 0x9e, 0, 0, 0, i as u8], Some(*a)) {
+                Ok(r) if r.yiaddr == *a => {}
+                _ => {
+                    // filling is not what is judged here
+                    out.excluded.push("pool-could-not-be-filled-as-planned");
+                    return out;
+                }
+            }
+        }
+        out.nontrivial = n >= 2;
+        if n > 32 {
+            out.class("pool-larger-than-32");
+        }
+        match ask(&mut pool, [2, 0x9f, 0, 0, 1, c.newcomer], None) {
+            Ok(r) => {
+                if r.yiaddr != addrs[free] {
+                    out.fail(
+                        "C01:double-grant",
+                        format!("pool of {}: only {} is free, the newcomer was given {}", n, addrs[free], r.yiaddr),
+                    );
+                }
+            }
+            Err(e) => {
+                out.fail(
+                    "C09:refused-though-free",
+                    format!("pool of {} addresses, all held except {}: the newcomer {} was refused ({})", n, addrs[free], c.newcomer, e),
+                );
+            }
+        }
+        out
+    }
+}
+
+pub fn run_c09_exhaust(ctx: &Ctx) {
+    let sizes: Vec<u8> = if ctx.tier == Tier::Quick {
+        vec![1, 2, 3, 16, 31, 32, 33, 34, 40, 48, 64, 65, 100, 150]
+    } else {
+        (1..=200).collect()
+    };
+    let mut cases: Vec<ExhaustCase> = vec![];
+    for n in sizes {
+        for free in 0..n {
+            for newcomer in 0..(if ctx.tier == Tier::Quick { 1 } else { 3 }) {
+                cases.push(ExhaustCase { n, free, newcomer });
+            }
+        }
+    }
+    let cs = &cases;
+    run_indexed(ctx, &C09Exhaust, cases.len() as u64, workers(), |i| Some(cs[i as usize].clone()));
+    ctx.extra(
+        "exhaustive_subclaims",
+        serde_json::json!([format!("one-address-left: every position of the free address in pools of the listed sizes ({} cases)", cases.len())]),
+    );
+}
+
+// ---------------------------------------------------------------------------------------------
 // C10
 
 #[derive(Default)]
@@ -1233,6 +1337,7 @@ pub fn replay(id: &str, sub: &str, case: &serde_json::Value) -> Option<Result<Ou
             Some(replay_prop(&hist_prop(id), case))
         }
         ("C20", "gauges") => Some(replay_prop(&C20Prop, case)),
+        ("C09", "one-address-left") => Some(replay_prop(&C09Exhaust, case)),
         ("C20", "upgraded-db") => Some(replay_prop(&C20Upgrade, case)),
         ("C18", "reopen") => Some(replay_prop(&C18Reopen, case)),
         ("C18", "oldschema") => Some(replay_prop(&C18OldSchema, case)),
